@@ -1,0 +1,120 @@
+//go:build verif
+
+// Contracts for package arraylist (comment-only; read by /verif/engine, never compiled into the package).
+
+package arraylist
+
+//@ pred Inv(l) := l != nil
+//@ -- abstract view: the list content
+//@ pred Seq(l) := seq(l.elements)
+//@ -- the backing array is the one the list had before, or one allocated by this call (never a caller-supplied one)
+//@ pred Owned(l) := arr(l.elements) == old(arr(l.elements)) || fresh(arr(l.elements)) || arr(l.elements) == 0
+//@ -- a caller-supplied slice never shares the list's backing array (callers cannot obtain it: C16)
+//@ pred Disjoint(l, vs) := len(vs) == 0 || arr(vs) != arr(l.elements)
+//@ pred InRange(l, i) := 0 <= i && i < len(l.elements)
+
+//@ func New
+//@   modifies nothing
+//@   ensures [C03 C15 C16 C17] fresh(result) && Inv(result) && Seq(result) == seq(values)
+//@   ensures [C16] arr(result.elements) == 0 || fresh(arr(result.elements))
+
+//@ func List.Add
+//@   requires Inv(list) && Disjoint(list, values)
+//@   modifies list.elements, elems(list.elements)
+//@   ensures [C03 C17] Seq(list) == old(Seq(list)) ++ seq(values)
+//@   ensures [C16] Owned(list)
+//@   loop 1:
+//@     invariant 0 - 1 <= rangeindex && rangeindex < len(values) && (len(values) == 0 ==> rangeindex == 0 - 1)
+//@     invariant len(list.elements) == l + len(values) && l == old(len(list.elements)) && Owned(list) && Disjoint(list, values)
+//@     invariant forall j :: 0 <= j && j < l ==> list.elements[j] == old(Seq(list))[j]
+//@     invariant forall j :: 0 <= j && j <= rangeindex ==> list.elements[l+j] == values[j]
+//@     decreases len(values) - rangeindex
+
+//@ func List.Get
+//@   requires Inv(list)
+//@   modifies nothing
+//@   ensures [C03 C17 C18] InRange(list, index) ==> result1 && result0 == Seq(list)[index]
+//@   ensures [C03 C17 C18] !InRange(list, index) ==> !result1 && result0 == zero(result0)
+
+//@ func List.Remove
+//@   requires Inv(list)
+//@   modifies list.elements, elems(list.elements)
+//@   ensures [C03 C17] old(InRange(list, index)) ==> Seq(list) == old(Seq(list))[:index] ++ old(Seq(list))[index+1:]
+//@   ensures [C03 C17] !old(InRange(list, index)) ==> Seq(list) == old(Seq(list)) && list.elements == old(list.elements)
+//@   ensures [C16] Owned(list)
+
+//@ func List.Contains
+//@   requires Inv(list)
+//@   modifies nothing
+//@   ensures [C03 C17 C18] result == (forall j :: 0 <= j && j < len(values) ==> values[j] in Seq(list))
+//@   loop 1:
+//@     invariant 0 - 1 <= rangeindex && rangeindex < len(values) && (len(values) == 0 ==> rangeindex == 0 - 1)
+//@     invariant forall j :: 0 <= j && j <= rangeindex ==> values[j] in Seq(list)
+//@     decreases len(values) - rangeindex
+
+//@ func List.Values
+//@   requires Inv(list)
+//@   modifies nothing
+//@   ensures [C03 C15 C16 C17 C18] seq(result) == Seq(list) && (fresh(arr(result)) || arr(result) == 0)
+
+//@ func List.IndexOf
+//@   requires Inv(list)
+//@   modifies nothing
+//@   ensures [C03 C17 C18] 0 - 1 <= result && result < len(Seq(list)) && (result >= 0 ==> Seq(list)[result] == value)
+//@   ensures [C03] forall k :: 0 <= k && k < len(Seq(list)) && (k < result || result < 0) ==> Seq(list)[k] != value
+
+//@ func List.Empty
+//@   requires Inv(list)
+//@   modifies nothing
+//@   ensures [C15 C17 C18] result == (len(Seq(list)) == 0)
+
+//@ func List.Size
+//@   requires Inv(list)
+//@   modifies nothing
+//@   ensures [C03 C15 C17 C18] result == len(Seq(list)) && result >= 0
+
+//@ func List.Clear
+//@   requires Inv(list)
+//@   modifies list.elements, elems(list.elements)
+//@   ensures [C03 C15 C17] len(Seq(list)) == 0
+//@   ensures [C16] Owned(list)
+
+//@ func List.Swap
+//@   requires Inv(list)
+//@   modifies elems(list.elements)
+//@   ensures [C03 C17] InRange(list, i) && InRange(list, j) ==> len(Seq(list)) == old(len(Seq(list))) && Seq(list)[i] == old(Seq(list))[j] && Seq(list)[j] == old(Seq(list))[i]
+//@     && (forall k :: 0 <= k && k < len(Seq(list)) && k != i && k != j ==> Seq(list)[k] == old(Seq(list))[k])
+//@   ensures [C03 C17] !(InRange(list, i) && InRange(list, j)) ==> Seq(list) == old(Seq(list))
+
+//@ func List.Insert
+//@   requires Inv(list) && Disjoint(list, values)
+//@   modifies list.elements, elems(list.elements)
+//@   ensures [C03 C17] 0 <= index && index <= old(len(Seq(list))) ==> Seq(list) == old(Seq(list))[:index] ++ seq(values) ++ old(Seq(list))[index:]
+//@   ensures [C03 C17] !(0 <= index && index <= old(len(Seq(list)))) ==> Seq(list) == old(Seq(list)) && list.elements == old(list.elements)
+//@   ensures [C16] Owned(list)
+
+//@ func List.Set
+//@   requires Inv(list)
+//@   modifies list.elements, elems(list.elements)
+//@   ensures [C03 C17] old(InRange(list, index)) ==> len(Seq(list)) == old(len(Seq(list))) && Seq(list)[index] == value
+//@     && (forall k :: 0 <= k && k < len(Seq(list)) && k != index ==> Seq(list)[k] == old(Seq(list))[k])
+//@   ensures [C03 C17] index == old(len(Seq(list))) ==> Seq(list) == old(Seq(list)) ++ [value]
+//@   ensures [C03 C17] !old(InRange(list, index)) && index != old(len(Seq(list))) ==> Seq(list) == old(Seq(list)) && list.elements == old(list.elements)
+//@   ensures [C16] Owned(list)
+
+//@ func List.withinRange
+//@   inline
+
+//@ func List.resize
+//@   inline
+
+//@ func List.growBy
+//@   requires Inv(list) && n >= 0 && n <= 1099511627776
+//@   modifies list.elements
+//@   ensures len(list.elements) == old(len(list.elements)) + n && Owned(list) && !isnil(list.elements)
+//@   ensures forall j :: 0 <= j && j < old(len(list.elements)) ==> list.elements[j] == old(list.elements[j])
+
+//@ func List.shrink
+//@   requires Inv(list)
+//@   modifies list.elements
+//@   ensures Seq(list) == old(Seq(list)) && Owned(list)
